@@ -46,6 +46,9 @@ func (c *Ctx) AssertionsGuarded(prop string) {
 				if _, fromIface := ta.X.Type().Underlying().(*types.Interface); !fromIface {
 					continue
 				}
+				if types.Identical(ta.X.Type(), ta.AssertedType) {
+					continue // the nil check go/ssa emits where a method value is taken from an interface value
+				}
 				n++
 				x := ta.X
 				// a wallet opened by the distributed wallet package is a distributed wallet: it imports distributed accounts
